@@ -1,5 +1,7 @@
 """C10 - ToContext is a barrier: the next step sees every awaited result (futures and child processes)."""
-from .. import core_check, core_model
+import json
+
+from .. import core_check, core_model, outline_check, outline_model as om, tlc
 from . import core_cfg as C
 
 PID = 'C10'
@@ -28,8 +30,28 @@ def run(tier, seed):
               dict(name='C10_children', progs=C.fam(['W1', 'W2', 'W3', 'W4', 'W6']), plans=[[]], alphabet=alpha_k, k=4, run_kw={'children': True}),
               dict(name='C10_lpause', progs=C.fam(['W1', 'W2', 'W4', 'W5']), plans=lp, alphabet=['complete', 'play', 'pause'], k=4)]
         mc.append(dict(name='C10_lpause', progs=C.fam(['W1', 'W2', 'W4', 'W5', 'W6']), plans=lp, alphabet=['complete', 'play', 'pause'], k=5, invariants=INV))
+    # the barrier inside structured outlines (module Outline): a step of an if_ / while_ body that hands something to the context
+    # - by to_context or in the ToContext it returns - makes its unit end in a Wait before the next instruction runs
+    def with_aw(o):
+        return any(st.get('aw', 'none') != 'none' for st in om._steps(o['body']))
+    fam = [o for o in om.family(4, 3) if with_aw(o)]
+    outl = om.sample(fam, 400 if tier == 'quick' else 4000, seed)
+    r = outline_check.model_and_replay('C10_outl', outl, om.oracles(3), invariants=['C09_Prefix', 'C09_Finished'], medium='copy')
+    oviol = 0
+    if r['tlc'].violated or not r['tlc'].ok:
+        raise tlc.MachineryError('Outline model: %s\n%s' % (r['tlc'].violated, r['tlc'].out[-2000:]))
+    for key, why, got in r['mismatches'][:5]:
+        oi, ri, ci = key
+        path = core_check.write_replay(PID, 'outline', {'kind': 'outline-mismatch', 'outline': outl[oi - 1], 'oracle': om.oracles(3)[ri - 1], 'crash_at': [],
+                                                        'medium': 'copy', 'why': why, 'expected_units': r['expected'][key][0],
+                                                        'expected_result': r['expected'][key][1], 'got': got})
+        print('MISMATCH outline=%s oracle=%s: %s' % (json.dumps(outl[oi - 1]), om.oracles(3)[ri - 1], why))
+        print('VIOLATION property=%s replay=%s' % (PID, path))
+    oviol = len(r['mismatches'])
     return core_check.run_check(
-        PID, tier, seed, mc, rp,
+        PID, tier, seed, mc, rp, extra_violations=oviol,
+        extra_cov={'outline_runs': [{'instance': 'C10_outl', 'outlines': len(outl), 'behaviours': r['behaviours'], 'mismatches': oviol}],
+                   'outline_states': r['tlc'].distinct, 'outline_behaviours_on_impl': r['behaviours']},
         level_text='TLC exhaustive over completion orders/outcomes/groupings + replay on real WorkChains (futures and launched children)',
         assumptions=C.ASSUMPTIONS + ['awaited items: plain loop futures completed by the environment, and real child processes launched by the step '
                                      '(Process.launch) that the environment resumes / fails / kills; outcomes ok / failing / killed',
@@ -39,4 +61,7 @@ def run(tier, seed):
 
 
 def replay(path):
+    if json.load(open(path)).get('kind') == 'outline-mismatch':
+        from . import c08
+        return c08.replay(path)
     return core_check.replay_file(path)
